@@ -60,6 +60,6 @@ Judge(rec) ==
       [] OTHER -> V(FALSE, "unknown-event", "unknown event")
 
 Init == l \in 1..Len(Trace) /\ verdict = Pending
-Next == verdict.class = "pending" /\ verdict' = Judge(Trace[l]) /\ UNCHANGED l
+Next == verdict.class = "pending" /\ verdict' = JudgeOrCrash(Trace[l], Judge) /\ UNCHANGED l
 Spec == Init /\ [][Next]_vars
 =============================================================================
